@@ -279,6 +279,8 @@ def rule_class(e: mn.Edge) -> str:
         return 'static-link'
     if r.endswith('_LINKER'):
         return 'link'
+    if r.endswith('_PCH'):
+        return 'precompile'
     if r.startswith('SHSYM'):
         return 'shsym'
     if r.startswith('CUSTOM_COMMAND'):
@@ -468,6 +470,8 @@ _MISSING = [re.compile(r"fatal error: ([^\s:]+): No such file or directory"),
             re.compile(r"error while loading shared libraries: ([^\s:]+):"),
             re.compile(r"cannot find ([^\s:]+)"),
             re.compile(r"cannot open ([^\s:]+)"),
+            # a file read while its producer is still writing it (the producer is not an ancestor either)
+            re.compile(r"([^\s:]+): (?:file not recognized|file truncated|error adding symbols|malformed archive|file format not recognized)"),
             re.compile(r"(?:not found|No such file)[^\n]*?([\w./+-]+\.(?:so[\w.]*|h|a|o|c|txt|map))")]
 
 
@@ -922,6 +926,22 @@ DIRECTED: T.List[T.Tuple[T.List[str], T.Dict[str, T.Any]]] = [
     (['generator'], {'generator.preserve': True, 'generator.depends': 'none', 'generator.rely': True,
                      'generator.libkind': 'static_library'}),
     (['subproject', 'genlist_chain'], {'genlist_chain.ct': True, 'genlist_chain.nested': True}),
+    # precompiled headers whose header #includes GENERATED files of every producer kind (custom target in sources,
+    # generator() output, custom target through declare_dependency(sources:), indexed output) and of header as well
+    # as non-header suffixes (.inc / .def / .tbl): the precompile step needs its own order-only edges
+    (['pch'], {'pch.lang': 'c', 'pch.n': 3, 'pch.inc.0': 'ct', 'pch.sfx.0': 'inc', 'pch.inc.1': 'gen', 'pch.sfx.1': 'tbl',
+               'pch.inc.2': 'dep', 'pch.sfx.2': 'def', 'unity': False}),
+    (['pch', 'pch'], {'b0:pch.lang': 'cpp', 'b1:pch.lang': 'c', 'pch.n': 2, 'pch.inc.0': 'gen', 'pch.sfx.0': 'h',
+                      'pch.inc.1': 'ct-index', 'pch.sfx.1': 'inc', 'unity': False}),
+    # link_depends: of every kind: generated / indexed / source-tree version script and LIBRARY targets that the link
+    # line reaches only through link_args (--whole-archive <path>, bare archive path, shared library by path), for
+    # the link step of a shared library and of an executable
+    (['link_depends'], {'link_depends.map': 'index', 'link_depends.helper': 'whole-archive', 'link_depends.exe': True,
+                        'link_depends.exe_helper': 'whole-archive'}),
+    (['link_depends', 'link_depends'], {'b0:link_depends.map': 'file', 'b1:link_depends.map': 'str',
+                                        'b0:link_depends.helper': 'archive', 'b1:link_depends.helper': 'shared',
+                                        'link_depends.exe': True, 'b0:link_depends.exe_helper': 'shared',
+                                        'b1:link_depends.exe_helper': 'archive'}),
     (['generator', 'ct_object', 'ct_header'], {'generator.depends': 'process', 'ct_object.how': 'archive',
                                                'ct_header.variant': 'index'}),
 ]
@@ -1088,6 +1108,8 @@ def main() -> int:
     chk.require('cfg:custom_target', 1)
     chk.require('cfg:link', built)
     chk.require('cfg:genlist', 1)
+    chk.require('cfg:pch', 1)
+    chk.require('cfg:link:with_link_depends', 1)
     if chk.counters.get('monitor:exe_outputs_mismatch_vs_generator', 0):
         chk.inconclusive.append('an executable of a reference build does not print the value the generator computed '
                                 '(generator or build wrong - see notes)')
